@@ -38,3 +38,17 @@
 (assert (forall ((a (Array Int Int)) (i Int) (v Int) (n Int)) (! (=> (<= n i) (= (SumA (store a i v) n) (SumA a n))) :pattern ((SumA (store a i v) n)))))
 (assert (forall ((a (Array Int S_interfaces_CommitteeMember)) (i Int) (n Int)) (! (=> (and (<= 0 i) (<= i n)) (<= (SumMA a i) (SumMA a n))) :pattern ((SumMA a i) (SumMA a n)))))
 (assert (forall ((p (Array Int Bool)) (a (Array Int S_interfaces_CommitteeMember)) (n Int)) (! (and (<= 0 (SWP p a n)) (<= (SWP p a n) (SumMA a n))) :pattern ((SWP p a n)))))
+;; section spi
+; Uninterpreted predicates standing for the consumer's SPI (A-KM, A-SPI)
+;; spec VerifiedMsg (Iface Int Str Str Str) Bool
+(declare-fun VerifiedMsg (Iface Int Str Str Str) Bool)
+;; spec VerifiedSeed (Iface Int Str Str Str) Bool
+(declare-fun VerifiedSeed (Iface Int Str Str Str) Bool)
+;; spec Commits (Iface Int Iface Str) Bool
+(declare-fun Commits (Iface Int Iface Str) Bool)
+;; spec CommitteeOf (Iface Iface Int Int) Slice_S_interfaces_CommitteeMember
+(declare-fun CommitteeOf (Iface Iface Int Int) Slice_S_interfaces_CommitteeMember)
+;; spec SeedOf (Str) Int
+(declare-fun SeedOf (Str) Int)
+;; spec SeedBytes (Int) Str
+(declare-fun SeedBytes (Int) Str)
